@@ -198,6 +198,18 @@ def anyNotIncreasing : List Int → Bool
   | a :: b :: rest => decide (b - a ≤ 0) || anyNotIncreasing (b :: rest)
   | _ => false
 
+/-- `z[0] != 0` (only looked at on a non-empty list) -/
+def headNotZero (z : List Int) : Bool :=
+  match z.head? with
+  | some h => decide (h ≠ 0)
+  | none => false
+
+/-- `z[-1] >= total` (only looked at on a non-empty list) -/
+def lastBeyond (z : List Int) (total : Int) : Bool :=
+  match z.getLast? with
+  | some l => decide (l ≥ total)
+  | none => false
+
 /-- the validation of the stored index list (translated `indexListGuard` over the five facts about the
 zero-based entries; Python's `or` short-circuits, so the element accesses are only made on a non-empty list) -/
 def checkIndexList (stored nRows : Int) (il : List Int) : Except ErrKind (List Int) :=
@@ -207,11 +219,8 @@ def checkIndexList (stored nRows : Int) (il : List Int) : Except ErrKind (List I
     match indexListTotal stored nRows with
     | .error e => .error e
     | .ok total =>
-      match indexListGuard z.isEmpty
-          (match z.head? with | some h => decide (h ≠ 0) | none => false)
-          (anyNotIncreasing z)
-          (z.any (fun i => decide (Int.fmod i stored ≠ 0)))
-          (match z.getLast? with | some l => decide (l ≥ total) | none => false) with
+      match indexListGuard z.isEmpty (headNotZero z) (anyNotIncreasing z)
+          (z.any (fun i => decide (Int.fmod i stored ≠ 0))) (lastBeyond z total) with
       | .error e => .error e
       | .ok _ => .ok z
 
